@@ -61,4 +61,7 @@ def khatrirao(*matrices: np.ndarray, reverse: bool = False) -> np.ndarray:
         P = np.reshape(i, newshape=(-1, 1, ncolFirst)) * np.reshape(
             P, newshape=(1, -1, ncolFirst), order="F"
         )
+    if len(matrices) == 1:
+        # Nothing to combine: still return a new array, not a view of the argument
+        return P.copy()
     return np.reshape(P, newshape=(-1, ncolFirst), order="F")
